@@ -728,7 +728,7 @@ impl Universe {
             if v <= -1000 {
                 return Err(format!("seccomp filter install failed: {}", sys::errname(-1000 - v)));
             }
-            if sys::now_s() - t0 > 10.0 {
+            if sys::now_s() - t0 > 60.0 {
                 return Err("launcher did not start".into());
             }
             std::thread::yield_now();
